@@ -319,6 +319,53 @@ Example C01_witness_pipeline_run :
   /\ Compose.PL.closed (fst r) = false /\ Compose.PL.pcancelled (fst r) = false.
 Proof. vm_compute. repeat split; reflexivity. Qed.
 
+(* 10a. (wave 5) the same for EVERY configuration record pc of the pipeline model whose input is the
+       instantiated file: any number of workers >= 1 (wf_cfg), any channel budget, with or without a
+       header block (c_resume = true: a restart stream that starts with data), any header error and
+       either form of the reader loop condition for the prefix statement; the hypotheses on the repair
+       flags are those of the C02 theorems used (c_recheck, c_nextctx; PL.current for completion). *)
+Theorem C01_pipeline_delivers_prefix_any_cfg : forall f pc s,
+  valid_file f = true -> Compose.PL.c_inp pc = inst cfg_all f -> Compose.PL.wf_cfg pc = true ->
+  Compose.PL.c_recheck pc = true -> Compose.PL.c_nextctx pc = true -> Compose.PB.reach pc s ->
+  exists t, map (lab cfg_all f) (Compose.PL.delivered s) ++ t = elements_file f.
+Proof. exact delivered_prefix_any_cfg_all. Qed.
+Print Assumptions C01_pipeline_delivers_prefix_any_cfg.
+
+Theorem C01_pipeline_completed_run_any_cfg : forall f pc s,
+  valid_file f = true -> Compose.PL.c_inp pc = inst cfg_all f -> Compose.PL.wf_cfg pc = true ->
+  Compose.PL.current pc = true -> Compose.PL.c_hdr_err pc = 0%Z -> Compose.PB.reach pc s ->
+  Compose.PL.closed s = false -> Compose.PL.pcancelled s = false -> Compose.PL.s_err s <> 0%Z ->
+  map (lab cfg_all f) (Compose.PL.delivered s) = elements_file f
+  /\ Compose.PL.s_err s = Compose.PL.eEOF /\ Compose.PL.err_value s = 0%Z.
+Proof. exact completed_run_any_cfg_all. Qed.
+Print Assumptions C01_pipeline_completed_run_any_cfg.
+
+(* non-vacuity: a HEADERLESS restart stream (c_resume = true), 2 workers: the hypotheses hold and a
+   complete fair run delivers the elements of the file *)
+Example C01_witness_pipeline_headerless :
+  let f := [C01_witness_block; C01_witness_block] in
+  let pc := Compose.PL.mkCfg 2 (inst cfg_all f) true 0%Z true true true 4 in
+  let r := Verif.Pipeline.Exec.scan_all pc 200 20 (Compose.PL.init pc) in
+  Compose.PL.wf_cfg pc = true /\ Compose.PL.current pc = true
+  /\ map (lab cfg_all f) (Compose.PL.delivered (fst r)) = elements_file f /\ snd r = true
+  /\ Compose.PL.s_err (fst r) = Compose.PL.eEOF /\ Compose.PL.closed (fst r) = false.
+Proof. vm_compute. repeat split; reflexivity. Qed.
+
+(* 7b. (wave 5) theorem 7 at FILE level: the trees actually fed to the n workers (block k on worker
+       k mod n) are, block by block, SOME layout of the valid descriptions of f: the scan of the file
+       is the kept elements of f in file order, for every configuration and worker count. *)
+Theorem C01_scan_file_every_layout : forall c n (f : list block_d) ms,
+  forallb valid_block f = true -> Forall2 (fun m b => canon_block m = encode_block b) ms f ->
+  scan_file c n ms = Ok (filter (keeps c) (flat_map elements f)).
+Proof. exact scan_file_layout. Qed.
+Print Assumptions C01_scan_file_every_layout.
+
+(* 3b. (wave 5) the 1e-10 degree clause as a Coq statement: PbfFloat/CoordFloat.v (its own file because
+       of the classical-reals axioms) proves elements_coord_float_error: for every block with
+       coords_small b = true (every coordinate of every element within 4e14 nanodegrees - a boolean of
+       Pbf/Spec.v that the correspondence check evaluates on every case, code 4), every coordinate n
+       of every element satisfies |RN(RN(1e-9) * RN(n)) - n * 1e-9| <= 1e-10 in binary64. *)
+
 (* 11. TIE BY TRANSLATION, loop bodies.  Beyond the dispatch (section 9) the translator re-reads, on
       every run, (a) the found-flag rules of scanDenseNodes / scanWays / scanRelations — which
       `if !foundX` sets which iterators to nil, which ones return an error (mandatory columns), which
